@@ -782,6 +782,10 @@ pub fn random_case(seed_rng: &mut Rng) -> Case {
                     q[i] = Some(fresh(&mut r));
                 }
             }
+            // some alternative paths are shorter or longer than the first one (the flows then have different hop counts)
+            if !reach && r.chance(1, 3) {
+                if q.len() > 2 && r.chance(1, 2) { q.pop(); } else { q.push(Some(fresh(&mut r))); }
+            }
             paths[t].push(q);
         }
     }
@@ -851,6 +855,18 @@ fn structured_cases() -> Vec<Case> {
             if (ops.len() + extra) % 2 == 1 { ops.push(f(100, 30)); }
             v.push(Case { max_flows: vec![1], cols: None, privacy: Some(n), max_addrs: None, ops });
         }
+    }
+    // two flows of different length (4 and 5 hops): with the flows view open and either flow selected, expanding privacy stops at the hop
+    // count of the flow ON DISPLAY
+    for first_flow_long in [false, true] {
+        let (a, b): (&[u32], &[u32]) = if first_flow_long { (&[1, 5, 6, 7, 8], &[1, 2, 3, 4]) } else { (&[1, 2, 3, 4], &[1, 5, 6, 7, 8]) };
+        let mut ops = vec![f(120, 40), round_of_path(0, 1, 1, &path(a), 0), round_of_path(0, 2, 1, &path(b), 0), round_of_path(0, 3, 1, &path(a), 0), f(120, 40), k("toggle_flows"), f(120, 40)];
+        for _ in 0..7 { ops.push(k("expand_privacy")); ops.push(f(120, 40)); }
+        ops.push(k("next_trace")); // next flow while the flows view is open
+        ops.push(f(120, 40));
+        for _ in 0..7 { ops.push(k("expand_privacy")); ops.push(f(120, 40)); }
+        for _ in 0..8 { ops.push(k("contract_privacy")); ops.push(f(120, 40)); }
+        v.push(Case { max_flows: vec![4], cols: None, privacy: None, max_addrs: None, ops });
     }
     // located hops at three different sites (ids 3, 6, 9), map view, every hop selected in turn, privacy 1..3
     for n in [1u8, 2, 3] {
